@@ -183,8 +183,14 @@ func (ts *timeSeries) AddWithTime(observation Observable, t time.Time) {
 		ts.advance(t)
 		ts.mergePendingUpdates()
 		ts.pendingTime = ts.levels[0].end
-		ts.pending.CopyFrom(observation)
-		ts.dirty = true
+		if t.After(ts.pendingTime.Add(-1 * smallBucketDuration)) {
+			ts.pending.CopyFrom(observation)
+			ts.dirty = true
+		} else {
+			// The levels were already advanced past t (by a query):
+			// the observation belongs in an older bucket.
+			ts.mergeValue(observation, t)
+		}
 	} else if t.After(ts.pendingTime.Add(-1 * smallBucketDuration)) {
 		// The observation is close enough to go into the pending bucket.
 		// This compensates for clock skewing and small scheduling delays
